@@ -11,7 +11,7 @@ def P(lst):
     return [{"P": p} for p in lst]
 
 DEEP = ["schema-len", "location", "errmsg"]
-SCAN_ALL = list(range(0, 29))
+SCAN_ALL = list(range(0, 31))
 CORE_ALL = list(range(0, 17))
 
 def next_total(quickN, thoroughN, ps, stubsets=DEEP, **kw):
@@ -44,7 +44,9 @@ DOC_ASSUME = [
 ]
 DOC_NOT = ["documents outside the template menu or longer than K lines", "schema bodies and everything that depends on the schema library (jsight / regex notations, ENUM rules, Path / Query / Headers bodies)", "the JSON rendering"]
 
-STRUCT = doc("VerifH_CatalogStructure", {"K": 3}, {"K": 4})
+STRUCT = doc("VerifH_CatalogStructure", {"K": 3, "MENU": 0}, {"K": 4, "MENU": 0})
+STRUCT_TAGS = doc("VerifH_CatalogStructure", {"K": 4, "MENU": 1}, {"K": 5, "MENU": 1})
+PGRAPH = doc("VerifH_PasteGraph", {"M": 3}, {"M": 4}, budget_violation=True, depth_budget=300)
 
 CHECKS = {
  "C01": {
@@ -54,9 +56,11 @@ CHECKS = {
    next_total(2, 3, [0, 1, 8, 12], stubsets=["schema-len"]),
    LOC,
    scan_project({"N": 2, "M": 1}, {"N": 3, "M": 2}, CORE_ALL),
-   CTX,
-   doc("VerifH_PipelineTotal", {"K": 2}, {"K": 3}, budget_violation=True),
+   {"pkg": "core", "fn": "VerifH_ContextResolution", "quick": {"K": 3}, "thorough": {"K": 5}, "stubsets": ["location"], "tabsets": ["kinds"]},
+   doc("VerifH_PipelineTotal", {"K": 2, "MENU": 0}, {"K": 3, "MENU": 0}, budget_violation=True),
+   doc("VerifH_PipelineTotal", {"K": 2, "MENU": 1}, {"K": 3, "MENU": 1}, budget_violation=True, full_schema_lib=True),
    doc("VerifH_PasteEqualsInline", {"K": 5, "MENU": 1}, {"K": 6, "MENU": 1}, budget_violation=True, depth_budget=300),
+   PGRAPH,
   ],
   "assumptions": [
    "schema library body delimiting (jschema/enum FromFile().Len()) replaced by a nondeterministic stub: on r remaining bytes returns any l in 1..r or an error; r = 0 is an error",
@@ -87,6 +91,7 @@ CHECKS = {
    doc("VerifH_Determinism", {"K": 4, "MENU": 1}, {"K": 5, "MENU": 1}, maporder=True, replay_repeat=30),
    doc("VerifH_Determinism", {"K": 2, "MENU": 0}, {"K": 3, "MENU": 0}, maporder=True, replay_repeat=30),
    {"pkg": "core", "fn": "VerifH_DeterminismUnusedParams", "quick": {}, "thorough": {}, "maporder": True, "replay_repeat": 30},
+   doc("VerifH_DeterminismPathBinding", {}, {}, maporder=True, replay_repeat=30),
   ],
   "assumptions": DOC_ASSUME + ["map iteration order is a nondeterministic choice: at every Next of a map range the engine forks over all not yet visited entries, independently in the two runs of the self-composition",
                                "a counterexample is replayed natively up to 30 times (the Go runtime picks the order at random)"],
@@ -95,7 +100,7 @@ CHECKS = {
  },
  "C04": {
   "title": "Catalog faithfulness",
-  "harnesses": [STRUCT],
+  "harnesses": [STRUCT, STRUCT_TAGS],
   "assumptions": DOC_ASSUME + ["reference model (refCatalogSig): reads info, servers, types, tags (declared first, then automatic per first path segment), and interactions with id / method / path / annotation / description / tags / request / responses off the template sequence using the C06 reference resolver for nesting"],
   "not_decided": DOC_NOT + ["documents with MACRO / PASTE (compared relationally by C07)"],
  },
@@ -108,7 +113,7 @@ CHECKS = {
  },
  "C06": {
   "title": "Context resolution",
-  "harnesses": [CTX],
+  "harnesses": [CTX, {"pkg": "core", "fn": "VerifH_ContextAfterPaste", "quick": {"K": 4}, "thorough": {"K": 6}, "stubsets": ["location"], "tabsets": ["kinds"]}],
   "assumptions": [
    "directive kinds are symbolic over all 30 values; the admissibility predicates (IsAllowedForDirectiveContext / IsAllowedForRootContext / IsHTTPRequestMethod) are tabulated from the real code on each run (900+30+30 concrete executions) and used as exact summaries",
    "events are fed through the real processCurrentDirective / processContextEnd / processEOF; the lexeme-to-event mapping of core.next is covered by the C01 scanProject harness",
@@ -121,8 +126,11 @@ CHECKS = {
   "harnesses": [
    {"pkg": "core", "fn": "VerifH_PasteEqualsInline", "quick": {"K": 3, "MENU": 0}, "thorough": {"K": 4, "MENU": 0}, "stubsets": ["location"], "budget_violation": True, "depth_budget": 300},
    {"pkg": "core", "fn": "VerifH_PasteEqualsInline", "quick": {"K": 5, "MENU": 1}, "thorough": {"K": 6, "MENU": 1}, "stubsets": ["location"], "budget_violation": True, "depth_budget": 300},
+   PGRAPH,
+   doc("VerifH_PasteEqualsInline", {"K": 3, "MENU": 3}, {"K": 4, "MENU": 3}, budget_violation=True, depth_budget=300, full_schema_lib=True),
   ],
   "assumptions": [
+   "schema-bearing instances (MENU 3: MACRO, PASTE, ENUM with a body, TYPE with an object body, GET with path, 200 @type): the real schema library is interpreted by the engine on the concrete bodies (no stub)",
    "documents: 'JSIGHT 0.3' followed by K lines from a menu of directive templates (MACRO, PASTE, URL, GET, GET with path, 200, 404, TYPE, TAG, SERVER; small menu: MACRO, PASTE, GET with path, 200); names and path segments are symbolic bytes over {a,b}; only schema-free notations (any/empty), so the whole real pipeline runs from the document text",
    "the catalog is compared through a structural rendering of every collection (not through encoding/json)",
    "call-depth budget 300 as the bound for 'in bounded time'; exceeding it is replayed natively under a timeout / stack limit",
@@ -148,7 +156,7 @@ CHECKS = {
   "harnesses": [
    {"pkg": "catalog", "fn": "VerifH_OrderedMaps", "quick": {}, "thorough": {}, "instances": [{"T": t} for t in range(5)], "lock_monitor": True, "no_replay_kinds": ["lock"]},
    {"pkg": "catalog", "fn": "VerifH_IdInjective", "quick": {"N": 3}, "thorough": {"N": 4}},
-   STRUCT,
+   STRUCT, STRUCT_TAGS,
   ],
   "assumptions": ["ordered collections: pre-state is any state with at most 3 entries satisfying the representation invariant; one step is inductive for histories of any length",
                   "collection keys are 1-byte strings (the code never looks inside a key)"],
@@ -167,7 +175,8 @@ CHECKS = {
  "C10": {
   "title": "Declaration order is free",
   "harnesses": [doc("VerifH_OrderTopLevel", {"K": 3, "MENU": 0}, {"K": 4, "MENU": 0}), doc("VerifH_OrderTopLevel", {"K": 3, "MENU": 1}, {"K": 4, "MENU": 1}),
-                doc("VerifH_AllOfOrder", {}, {})],
+                doc("VerifH_AllOfOrder", {}, {}),
+                doc("VerifH_OrderTopLevel", {"K": 3, "MENU": 2}, {"K": 4, "MENU": 2}, full_schema_lib=True)],
   "assumptions": DOC_ASSUME + ["permutation = swap of two adjacent top-level blocks (generates all permutations), kept only when every line keeps its parent under the C06 reference resolver; the JSIGHT header stays first"],
   "not_decided": DOC_NOT + ["order effects inside the schema library (lazy loading of rules / types): the library is not encoded", "declaration-order effects through more than three types"],
  },
@@ -189,9 +198,12 @@ CHECKS = {
   "title": "Path parameters",
   "harnesses": [
    {"pkg": "core", "fn": "VerifH_PathParameters", "quick": {"N": 6}, "thorough": {"N": 9}},
+   doc("VerifH_PathBinding", {}, {}),
+   doc("VerifH_CheckPathSchema", {}, {}),
   ],
-  "assumptions": [],
-  "not_decided": ["binding of parameters to Path directive schemas (BuildResourceMethodsPathVariables)", "Path body parsing by the schema library", "paths longer than N bytes"],
+  "assumptions": ["binding: 0..2 Path directives (path from a menu of 5 paths, schema keys from {id}, {nm}, {id,nm}, {zz}) and 1..2 HTTP interactions with distinct paths from the same menu, built as catalog structs; the reference binding uses the independent byte-wise splitter of the first harness",
+                  "path schema: root and children token types over all 7 JSON/JSight token types, 0..2 children, one optional rule from {additionalProperties, nullable, or, optional}"],
+  "not_decided": ["Path body parsing by the schema library and shortcut expansion through user types", "paths longer than N bytes / outside the menu"],
  },
  "C14": {
   "title": "Lexical integrity",
@@ -229,7 +241,7 @@ CHECKS = {
   "harnesses": [
    {"pkg": "catalog", "fn": "VerifH_TagNameInverse", "quick": {"N": 4}, "thorough": {"N": 6}, "tabsets": ["urlescape"]},
    {"pkg": "catalog", "fn": "VerifH_PathTagTitle", "quick": {"N": 5}, "thorough": {"N": 8}},
-   STRUCT,
+   STRUCT, STRUCT_TAGS,
   ],
   "assumptions": ["net/url.shouldEscape tabulated from the real standard-library code (256 x 8 concrete executions) and used as an exact summary"],
   "not_decided": ["segments longer than N bytes", "documents outside the template menu of the structure harness"],
